@@ -164,6 +164,14 @@ def rows_of(d):
             rows.append(('O_ID', [i['num'], c['id']]))
             for a in i['attrs']:
                 rows.append(('O_OIDA', [a, c['id'], i['num'], '']))
+        # attributes off the R103 chain: related across R102 only (base / derived, never referred to)
+        for cls, a in d.get('loose', []):
+            if cls != c['id']:
+                continue
+            rows.append(('O_ATTR', [a['id'], c['id'], 0, a['name'], '', '', a['name'], 0, a['kind'][1], '', '']))
+            rows.append(('O_BATTR', [a['id'], c['id']]))
+            rows.append(('O_NBATTR', [a['id'], c['id']]) if a['kind'][0] == 'base' else
+                        ('O_DBATTR', [a['id'], c['id'], '', 0, 0]))
 
     def oid_for(cls, iattrs):
         """the identifier of the referred class that holds the identifying attributes"""
@@ -345,6 +353,14 @@ def decode(m):
             else:
                 kind = ['base', a.DT_ID or 0]
             al.append({'id': a.Attr_ID, 'name': a.Name, 'kind': kind})
+        on_chain = {a['id'] for a in al}
+        for a in attrs.get(c.Obj_ID, []):
+            if a.Attr_ID not in on_chain:           # related across R102 but not on the chain of the first attribute
+                key = (a.Attr_ID, a.Obj_ID)
+                d.setdefault('loose', []).append([c.Obj_ID, {
+                    'id': a.Attr_ID, 'name': a.Name,
+                    'kind': ['ref', rattr[key].BObj_ID or 0, rattr[key].BAttr_ID or 0] if key in rattr else
+                            ['derived', a.DT_ID or 0] if key in dbattr else ['base', a.DT_ID or 0]}])
         il = [{'num': i.Oid_ID, 'attrs': list(oidas.get((c.Obj_ID, i.Oid_ID), []))} for i in oids.get(c.Obj_ID, [])]
         d['classes'].append({'id': c.Obj_ID, 'kl': c.Key_Lett, 'attrs': al, 'idents': il,
                              'parent': _parent_of(m, c.Obj_ID, pe_by_id)})
@@ -388,10 +404,16 @@ def normal_diagram(d):
     def par(p):
         # a Package_ID / Component_ID that names no row reads back as no parent at all
         return list(p) if p and (p[0] == 'comp', p[1]) in known else None
+    loose_cls = {x[0] for x in d.get('loose', [])}
     out = {
         'containers': sorted(([k['comp'], k['id'], k['name'], par(k['parent'])] for k in d['containers']), key=repr),
         'dts': sorted(([t['id'], t['name'], list(t['kind']), par(t['parent'])] for t in d['dts']), key=repr),
-        'classes': sorted(([c['id'], c['kl'], [[a['id'], a['name'], list(a['kind'])] for a in c['attrs']],
+        # a class with attributes off the R103 chain: which unchained attribute heads "the" chain is a matter of row
+        # order, so all its attributes are compared as a set
+        'classes': sorted(([c['id'], c['kl'],
+                            [[a['id'], a['name'], list(a['kind'])] for a in c['attrs']] if c['id'] not in loose_cls else
+                            ['unordered'] + sorted([a['id'], a['name'], list(a['kind'])] for a in
+                                                   c['attrs'] + [x[1] for x in d.get('loose', []) if x[0] == c['id']]),
                             sorted([i['num'], sorted(i['attrs'])] for i in c['idents']), par(c['parent'])]
                            for c in d['classes']), key=repr),
         'rels': [],
@@ -473,7 +495,8 @@ def diagram_sexp(d):
         [[c['id'], c['kl'], [[a['id'], a['name'], [Sym(a['kind'][0])] + list(a['kind'][1:])] for a in c['attrs']],
           [[i['num'], list(i['attrs'])] for i in c['idents']], _p_sexp(c['parent'])] for c in d['classes']],
         [[r['id'], r['numb'], kind_rel(r['kind']), _p_sexp(r['parent'])] for r in d['rels']],
-    ]
+    ] + ([[[x[0], [x[1]['id'], x[1]['name'], [Sym(x[1]['kind'][0])] + list(x[1]['kind'][1:])]] for x in d['loose']]]
+         if d.get('loose') else [])
 
 
 # --------------------------------------------------------------------------- the specification in Python (oracle)
@@ -943,7 +966,8 @@ KLS = ['A', 'B', 'C', 'D', 'E', 'F', 'G', 'H', 'Dog', 'Cat', 'Owner', 'Leash', '
 
 
 def gen_diagram(rng, max_classes=5, special_names=False, ensure_bare=False, ensure_unsupported=False,
-                ensure_empty_name=False, ensure_dangling_parent=False, empty_enum=False):
+                ensure_empty_name=False, ensure_dangling_parent=False, empty_enum=False, loose_attrs=False,
+                dup_type_names=False):
     """a random well-formed class diagram; returns the diagram.  Every identifier is fresh (one counter)."""
     counter = [0]
 
@@ -1136,6 +1160,34 @@ def gen_diagram(rng, max_classes=5, special_names=False, ensure_bare=False, ensu
             if n not in nums and rng.random() < 0.35:
                 pick = rng.sample(c['attrs'], rng.randint(0, min(2, len(c['attrs']))))
                 c['idents'].append({'num': n, 'attrs': [a['id'] for a in pick]})
+    if loose_attrs:
+        # take attributes that nothing refers to off the R103 chain (R103 is conditional at both ends): some classes
+        # partly, some entirely (only the first attribute keeps its place)
+        used = {a for c in d['classes'] for i in c['idents'] for a in i['attrs']}
+        used |= {a['kind'][2] for c in d['classes'] for a in c['attrs'] if a['kind'][0] == 'ref'}
+        d['loose'] = []
+        for c in d['classes']:
+            free = [a for a in c['attrs'] if a['id'] not in used and a['kind'][0] != 'ref']
+            if not free or rng.random() < 0.3:
+                continue
+            take = free if rng.random() < 0.4 else rng.sample(free, rng.randint(1, len(free)))
+            if len(take) == len(c['attrs']):
+                take = [a for a in take if a is not c['attrs'][0]]     # the first attribute keeps its place
+            for a in take:
+                c['attrs'].remove(a)
+                d['loose'].append([c['id'], a])
+            if rng.random() < 0.5:
+                d['loose'].append([c['id'], {'id': nid(), 'name': 'unchained_%d' % nid(), 'kind': ['base', rng.choice(supported)['id']]}])
+    if dup_type_names:
+        # two distinct data types with the same name in different scopes (type names are scoped per package): a type of
+        # a component named like a global / system-level one, of another kind
+        comps = [k for k in d['containers'] if k['comp']]
+        for _ in range(rng.randint(1, 2)):
+            twin = rng.choice([t for t in d['dts'] if t['name'] and (py_type_name(d, t['id']) or t['kind'][0] == 'enum')] or d['dts'])
+            inner = rng.choice(comps) if comps else None
+            par = ['comp', inner['id']] if inner else some_parent()
+            kind = ['enum', 'lo', 'hi'] if twin['kind'][0] != 'enum' or rng.random() < 0.5 else ['user', GLOBAL_DT_BASE + 2]
+            d['dts'].append({'id': nid(), 'name': twin['name'], 'kind': kind, 'parent': par, 'predef': False})
     rng.shuffle(d['classes'])
     rng.shuffle(d['rels'])
     return d
@@ -1295,7 +1347,8 @@ def py_xsd_tree(d, comp):
         if not py_contained(d, comp, c['parent']):
             continue
         attrs = []
-        for a in c['attrs']:
+        # every attribute related across R102, on the R103 chain or not
+        for a in [x[1] for x in d.get('loose', []) if x[0] == c['id']] + c['attrs']:
             if a['kind'][0] == 'derived':
                 continue
             dt = py_attr_dt(d, a)
